@@ -81,7 +81,8 @@ class SIntegrator(Integrator):
                     f"{type(self).__name__} does not support running"
                     " the evolution from measurements."
                 )
-            stepper_opt["measurement_noise"] = generator.is_measurement
+            if "measurement_noise" in self._stepper_options:
+                stepper_opt["measurement_noise"] = generator.is_measurement
         elif isinstance(generator, Wiener):
             self.wiener = generator
         else:
